@@ -30,6 +30,9 @@ RULE = (
     "detects non-termination; non-trivial = >=3 classes and >=1 edge behind >=1 wrapper; distinct = "
     "canon(case)"
 )
+RULE += (
+    ' Round 9: the parser route runs twice, over the document as written and over the document with every typed object schema written with a one-element type list (the parser then meets already parsed values).'
+)
 ASSUMPTIONS = [
     "class names are unique (orderer's documented precondition)",
     "termination detector is a deterministic line-count budget, not a proof",
@@ -120,7 +123,8 @@ def cases(draw):
         min_size=1, max_size=4))
     # the parser de-duplicates titles by assigning `cls.__name__` afterwards: `__qualname__` (and `__module__`)
     # are then the same for several classes
-    return {"n": n, "edges": edges, "roots": roots, "bases": bases, "renamed_after_creation": draw(st.integers(0, 2)) == 0}
+    return {"n": n, "edges": edges, "roots": roots, "bases": bases, "renamed_after_creation": draw(st.integers(0, 2)) == 0,
+            "parsed_route": draw(st.sampled_from([None, None, "plain", "type-lists", "type-lists"]))}
 
 
 def build(case):
@@ -291,6 +295,12 @@ def run_budgeted(fn):
         sys.settrace(old)
 
 
+def observe_frame(exc):
+    from vlib import observe
+
+    return observe.statham_frame(exc)
+
+
 def predicate(case, stats):
     classes = build(case)
     edges = effective_edges(case)
@@ -356,6 +366,39 @@ def predicate(case, stats):
                 break
         if any(c is not classes[int(c.__name__[1:])] for c in out if isinstance(c, ObjectMeta)):
             fails.append({"sub": "order", "kind": "foreign-class-object-yielded"})
+    if not fails and not cyclic and outcome == "order" and not case.get("bases") and case.get("parsed_route"):
+        # the same graph reached the other way: written out as a document (some objects spelled "type": ["object"],
+        # which sends them through the parser a second time), loaded through the documented pipeline, ordered again
+        import json as _json
+        from vlib import docs as _docs
+        from statham.schema.parser import parse as _parse
+        from statham.serializers import serialize_json as _serialize_json
+
+        try:
+            text = _json.dumps(_serialize_json(*roots))
+            if case["parsed_route"] == "type-lists":
+                text = text.replace('"type": "object"', '"type": ["object"]')
+            elements = _parse(_docs.materialized({"a.json": _json.loads(text)}, "a.json"))
+            names2 = [c.__name__ for c in orderer(*elements)]
+        except RecursionError:
+            names2 = None
+        except Exception as exc:  # noqa: BLE001
+            names2 = None
+            if observe_frame(exc) != "?":
+                fails.append({"sub": "parsed-route", "kind": "parsed-route-raised:" + type(exc).__name__,
+                              "detail": str(exc)[:200]})
+        if names2 is not None:
+            want2 = {f"C{i}" for i in reach}
+            if set(names2) != want2 or len(names2) != len(set(names2)):
+                fails.append({"sub": "parsed-route", "kind": "parsed-route:incomplete-or-extra-classes", "got": names2,
+                              "want": sorted(want2), "spelling": case["parsed_route"]})
+            else:
+                pos2 = {n: k for k, n in enumerate(names2)}
+                for i, j in edges:
+                    if f"C{i}" in pos2 and f"C{j}" in pos2 and pos2[f"C{j}"] > pos2[f"C{i}"]:
+                        fails.append({"sub": "parsed-route", "kind": "parsed-route:dependency-after-dependent",
+                                      "edge": [i, j], "got": names2})
+                        break
     wrapped = [e for e in case["edges"] if e["wrappers"]]
     cls = ["n:%d" % case["n"], "outcome:" + outcome.split(":")[0], "cyclic" if cyclic else "acyclic"]
     if case.get("bases"):
